@@ -43,19 +43,40 @@ RNorm(n, d) ==
   ELSE LET s == IF d < 0 THEN -1 ELSE 1
            g == GCD(Abs(n), Abs(d))
        IN <<(s * n) \div g, (s * d) \div g>>
-RAdd(a, b) == IF a[1] = 0 THEN b ELSE IF b[1] = 0 THEN a
-              ELSE IF a[2] = b[2] THEN RNorm(a[1] + b[1], a[2])
+(* TLC integers are 32 bit.  An operation whose exact result (or an intermediate product) would leave that  *)
+(* range yields NaR, "not a representable rational", which every later operation propagates; it also sets    *)
+(* register 7 of the evaluating worker, which the trace specifications reset before and read after each      *)
+(* line: a line whose oracle value is NaR is reported as OUTSKIP (counted, not judged), never accepted and    *)
+(* never a TLC overflow error.                                                                               *)
+MaxInt == 2147483647
+NaR == <<1, 0>>
+IsNaR(a) == a[2] = 0
+Fits(x, y) == x = 0 \/ y = 0 \/ Abs(x) <= MaxInt \div Abs(y)
+Over(x) == IF TLCSet(7, 1) THEN NaR ELSE NaR        \* (takes an argument so that TLC does not evaluate it once at start-up)
+RAdd(a, b) == IF IsNaR(a) \/ IsNaR(b) THEN NaR
+              ELSE IF a[1] = 0 THEN b ELSE IF b[1] = 0 THEN a
+              ELSE IF a[2] = b[2] THEN (IF Abs(a[1]) <= MaxInt - Abs(b[1]) THEN RNorm(a[1] + b[1], a[2]) ELSE Over(a))
               ELSE LET g == GCD(a[2], b[2])          \* least common denominator keeps 32-bit ints small
-                   IN RNorm(a[1] * (b[2] \div g) + b[1] * (a[2] \div g), (a[2] \div g) * b[2])
+                       p == b[2] \div g
+                       q == a[2] \div g
+                   IN IF Fits(a[1], p) /\ Fits(b[1], q) /\ Fits(q, b[2])
+                      THEN (IF Abs(a[1] * p) <= MaxInt - Abs(b[1] * q) THEN RNorm(a[1] * p + b[1] * q, q * b[2]) ELSE Over(a))
+                      ELSE Over(a)
 RNeg(a) == <<-a[1], a[2]>>
 RSub(a, b) == RAdd(a, RNeg(b))
-RMul(a, b) == IF a[1] = 0 \/ b[1] = 0 THEN <<0, 1>>
+RMul(a, b) == IF IsNaR(a) \/ IsNaR(b) THEN NaR
+              ELSE IF a[1] = 0 \/ b[1] = 0 THEN <<0, 1>>
               ELSE LET g1 == GCD(Abs(a[1]), b[2])  g2 == GCD(Abs(b[1]), a[2])
-                   IN <<(a[1] \div g1) * (b[1] \div g2), (a[2] \div g2) * (b[2] \div g1)>>
-RInv(a) == IF a[1] < 0 THEN <<-a[2], -a[1]>> ELSE <<a[2], a[1]>>      \* a # 0
+                       n1 == a[1] \div g1  n2 == b[1] \div g2  d1 == a[2] \div g2  d2 == b[2] \div g1
+                   IN IF Fits(n1, n2) /\ Fits(d1, d2) THEN <<n1 * n2, d1 * d2>> ELSE Over(a)
+RInv(a) == IF IsNaR(a) THEN NaR ELSE IF a[1] < 0 THEN <<-a[2], -a[1]>> ELSE <<a[2], a[1]>>      \* a # 0
 RDiv(a, b) == RMul(a, RInv(b))
-RLeq(a, b) == LET g == GCD(a[2], b[2]) IN a[1] * (b[2] \div g) <= b[1] * (a[2] \div g)
-RLt(a, b) == LET g == GCD(a[2], b[2]) IN a[1] * (b[2] \div g) < b[1] * (a[2] \div g)
+RLeq(a, b) == IF IsNaR(a) \/ IsNaR(b) THEN TRUE
+              ELSE LET g == GCD(a[2], b[2]) p == b[2] \div g q == a[2] \div g
+                   IN IF Fits(a[1], p) /\ Fits(b[1], q) THEN a[1] * p <= b[1] * q ELSE TLCSet(7, 1)
+RLt(a, b) == IF IsNaR(a) \/ IsNaR(b) THEN TRUE
+             ELSE LET g == GCD(a[2], b[2]) p == b[2] \div g q == a[2] \div g
+                  IN IF Fits(a[1], p) /\ Fits(b[1], q) THEN a[1] * p < b[1] * q ELSE TLCSet(7, 1)
 RZero == <<0, 1>>
 ROne == <<1, 1>>
 
@@ -89,7 +110,9 @@ ApproxEq(want, m) ==
   IF (want[1] < 0) # (m < 0) /\ want[1] # 0 /\ m # 0 THEN Abs(m) <= FxTol /\ FALSE
   ELSE Near2(Mul2(Abs(want[1]), FxScale), Mul2(Abs(m), want[2]), FxTol * want[2])
 (* equality of an oracle rational with a recorded value (exact pair or fixed point) *)
-REq(want, have) == IF IsFx(have) THEN ApproxEq(want, have[1]) ELSE want = have
+REq(want, have) == IF IsNaR(want) THEN FALSE
+                   ELSE IF IsFx(have) THEN (IF FxInRange(want) THEN ApproxEq(want, have[1]) ELSE TLCSet(7, 1) /\ FALSE)
+                   ELSE want = have
 
 Zero(sr) == CASE sr \in IntSR -> 0
               [] sr = "BM2" -> <<0, 0, 0, 0>>
